@@ -1,9 +1,11 @@
 ENGINES = [
-    {"name": "E1-crosshair", "path": "vlib/chx.py", "serves_properties": ["C13", "C18", "C20"],
+    {"name": "E1-crosshair", "path": "vlib/chx.py", "serves_properties": ["C01", "C13", "C18", "C20"],
      "kind_free_text": "CrossHair (z3) symbolic execution of harness conditions that call toasty's real functions; inductive cuts by stubbing recursive globals / the reducer; counterexamples replayed under plain CPython"},
 ]
 ENGINES.append({"name": "E2-symx-symnp", "path": "vlib/e2.py", "serves_properties": ["C02", "C06", "C08", "C09", "C11", "C12", "C14", "C15", "C16"],
      "kind_free_text": "own z3-backed proxy-object symbolic execution (vlib/symx.py) with a lazy symbolic numpy (vlib/symnp.py) patched into toasty's modules; claims proved per path; counterexamples and vacuity twins replayed with real numpy on the solver model's inputs"})
+ENGINES.append({"name": "E3-bmc", "path": "vlib/bmc.py", "serves_properties": ["C01", "C03"],
+     "kind_free_text": "z3 QF_BV bounded model checking of the process protocols: producer scripts, worker reaction tables and the dispatcher's release table are extracted from the real functions on every run (vlib/mpmodel.py), composed with a trusted model of multiprocessing.Queue/Event/Process; the schedule is a solver variable with a complete step bound; counterexample schedules are replayed on the real entry points and workers under a deterministic thread scheduler"})
 NOTES = ("Solver-based checking of the real code. Exit 0 = all explored obligations held; inconclusive obligations are printed as INCONCLUSIVE and listed in evidence, never counted as held. "
          "Exit 2 = harness error. known_findings.json lists genuine defects (open / fixed).")
 CHECKS["C13"] = dict(
@@ -84,4 +86,17 @@ CHECKS["C12"] = dict(
     technique="z3 (linear real arithmetic over the concrete tile geometry) via own symbolic execution of the real toast_tile_for_point / containment score / _div4 with a symbolic point; inductive rule + cover obligations for every tile up to the depth bound",
     text="For every direction on the sphere (symbolic), both coordinate systems: the real level-1 selection returns a tile containing the point (lon + 2*pi*m likewise); one real loop iteration with symbolic scores picks the first zero-score child else the best; for EVERY tile of levels 1..D-1 (D = 4 quick, 6 thorough) the children produced by the real _div4 and scored by the real containment function cover the parent up to a 1e-12 rounding tolerance => by induction the depth-d tile contains the point; nesting cross-checked end-to-end to depth 2.",
     note="Cartesian direction tied to longitude by sign facts of sin/cos only; concrete double geometry evaluated exactly; the 2-pixel accuracy of toast_pixel_for_point (lstsq) is not decided.",
+)
+
+CHECKS["C01"] = dict(
+    engine="E3-bmc", ref="DESIGN.md §3.2",
+    technique="z3 QF_BV bounded model checking of the walk protocol (dispatcher release table learned from the real loop, worker table and shutdown script extracted from the real code; schedule and tile liveness symbolic) + CrossHair/z3 one-step obligations for the serial walk",
+    text="Parallel: for ALL schedules of dispatcher, feeder threads and 2 (thorough: 3) workers and ALL liveness patterns on three tree shapes (root+4 children; depth-3 slice with dispatcher-released intermediate parents; sub-pyramid apex), z3 shows every live non-leaf tile's callback runs exactly once and only after its live children's callbacks ended, no deadlock, and termination with walk() returned; the step bound is complete for each configuration. Serial: inductive one-step obligations + end-to-end comparison with the post-order reference for symbolic filter masks.",
+    note="multiprocessing = trusted model (bounded queues with feeder buffers, time-out only on an empty pipe, weak fairness); the learned dispatcher table is position-independent (checked at two positions); deeper trees by an abstraction argument (Appendix A-4).",
+)
+CHECKS["C03"] = dict(
+    engine="E3-bmc", ref="DESIGN.md §3.3",
+    technique="z3 QF_BV bounded model checking of each producer/worker stage (producer script and worker reaction table extracted from the real functions; schedule symbolic, complete bound) with deterministic-scheduler replay on the real code",
+    text="For leaf visits, transforms, multi-TAN and multi-WCS tiling: for ALL interleavings of producer, feeder flushes, worker receives/time-outs/callbacks/exits with 1-2 items and 2 workers (thorough: up to 5 items, 3 workers) and the queue capacity the code passes, z3 shows the entry point returns only after every item's callback completed and every worker exited, each item is processed exactly once, no deadlock, termination; the real producer enqueues exactly the serial item set.",
+    note="trusted model of multiprocessing; worker = memoryless loop inferred by exhaustive probing of the real function (fails closed); pipe order not modelled (over-approximation).",
 )
